@@ -166,6 +166,15 @@ type Call struct {
 	InputAt       time.Time // resumed_on / triggered_on chosen by the host
 	ReplicaBefore gen.J
 	WallNS        int64
+	pre           *preCall
+	hostCarried   bool // the trigger/resume carried the host's contact row and the engine applied it
+}
+
+// preCall lets an oracle re-execute a call from the same pre-state (differential checks).
+type preCall struct {
+	snap      sim.Snapshot
+	transient int // pending transient asset store errors at the time of the call
+	exec      func(eng flows.Engine) error
 }
 
 // Violation is one oracle failure.
@@ -231,7 +240,7 @@ func (w *World) logf(format string, args ...any) {
 func (w *World) Violate(prop, oracle, fp, msg string) {
 	call := len(w.Calls)
 	w.Violations = append(w.Violations, Violation{Prop: prop, Oracle: oracle, Fingerprint: fp, Msg: msg, Call: call})
-	w.logf("VIOLATION %s %s %s: %s", prop, oracle, fp, msg)
+	w.logf("VIOLATION %s %s %s: %s", prop, oracle, fp, clip(firstLine(msg), 300))
 	if w.Cfg.StopOn == "" || w.Cfg.StopOn == prop {
 		w.stopped = true
 	}
